@@ -15,6 +15,21 @@ PROPS = {
         assumptions=['children() enumerates the children of a node (it is the baseline of every clause)',
                      'sibling-sequence clause skipped under parents that have a zero-width child (statement)'],
     ),
+    'C10': dict(
+        engines=[('vmon', 'c10')],
+        technique='runtime monitoring: differential oracle (incrementally edited document vs fresh parse) over random edit histories',
+        rule=('per corpus file (23 languages) random histories of 1-14 (quick) / 1-40 (thorough) operations through AstGrep::edit and '
+              'AstGrep::replace: leaf replaced by shorter/longer/multi-byte token, statement deleted/duplicated, insertion at offset 0 and at EOF, '
+              'blank lines added/removed, replacement from a real pattern match. After every step source() must equal the harness splice and, '
+              'when a fresh parse of that text is error-free, the DFS dump (kind id, named, byte range, line/char column, child count) and the '
+              'results of probe searches must be identical. evaluations = steps compared with a fresh parse. '
+              'Non-trivial = distinct histories with >= 2 steps in which a length-changing edit precedes a later compared step.'),
+        floor={'quick': 300, 'thorough': 5000},
+        level_text=('Thousands of edit steps on real sources are compared node by node with a fresh parse; held on the histories executed. '
+                    'ASan/valgrind shards of the same workload are described in DESIGN.md §4.'),
+        level_note='Trusted: tree-sitter produces the same tree for a correct InputEdit as for a fresh parse when the text is error-free (measured: silent on >10k steps after the fix of the duplicate tree.edit).',
+        assumptions=['only steps whose resulting text parses without ERROR/MISSING nodes are compared (statement)'],
+    ),
 }
 
 NOT_APPLICABLE = {}
